@@ -56,7 +56,7 @@ func (g *c10Gen) shadowName(vars []c10Var) string {
 // Every purity-sensitive operator gets a template in which one let-bound collection is
 // used by several later operators whose results all stay observable.
 var c10Templates = []string{"list-concat", "cat-call", "list-set-concat", "set-union", "where-reuse", "flatten-reuse",
-	"loop-concat", "tform-shadow", "tform-shadow-nested", "tform-dedup", "rec-reuse", "rec-map"}
+	"loop-concat", "tform-shadow", "tform-shadow-nested", "tform-dedup", "rec-reuse", "rec-map", "opt-attr"}
 
 func (b *c10Body) template(name string) {
 	g := b.g
@@ -234,6 +234,51 @@ func (b *c10Body) template(name string) {
 		b.addExpr(&c10Ex{Op: "bin", T: c10TBool, Sym: []string{"in", "!in"}[g.intn(2, "trin")], A: key, B: c10VarEx(rv)}, false)
 		b.addExpr(&c10Ex{Op: "bin", T: c10TBool, Sym: []string{"in", "!in"}[g.intn(2, "trin2")], A: g.expr(c10TStr, 1, b.vars), B: c10VarEx(rv)}, false)
 		b.addExpr(&c10Ex{Op: "bin", T: c10TInt, Sym: "+", A: &c10Ex{Op: "attr", T: c10TInt, A: c10VarEx(rv), Name: rec.F[0].Name}, B: &c10Ex{Op: "attr", T: c10TInt, A: c10VarEx(rv), Name: rec.F[1].Name}}, false)
+	case "opt-attr":
+		// records whose attribute is null for some elements and a value for the others, consumed element by
+		// element: the same comparison sees a null and a non-null operand in one evaluation
+		base := baseList()
+		sv := g.fresh("e")
+		el := &c10Ex{Op: "var", T: c10TInt, Name: sv}
+		k := 2 + g.intn(2, "toptmod")
+		cond := &c10Ex{Op: "bin", T: c10TBool, Sym: "==", A: &c10Ex{Op: "bin", T: c10TInt, Sym: "%", A: el, B: c10Lit(c10Int(int64(k)))}, B: c10Lit(c10Int(int64(g.intn(k, "toptrem"))))}
+		ot, val := c10TOInt, &c10Ex{Op: "bin", T: c10TInt, Sym: "+", A: c10CloneEx(el), B: g.litInt()}
+		if g.coin("toptstr") {
+			ot, val = c10TOStr, g.litStr()
+		}
+		null := func() *c10Ex { return &c10Ex{Op: "lit", T: ot, Lit: &c10Val{K: "null"}} }
+		opt := &c10Ex{Op: "if", T: ot, A: cond, B: null(), C: val}
+		if g.coin("toptswap") {
+			opt.B, opt.C = opt.C, opt.B
+		}
+		fo, fi := g.fresh("f"), g.fresh("f")
+		recT := &c10Ty{K: "m", F: []c10Field{{fo, ot}, {fi, c10TInt}}}
+		mk := &c10Tform{Arg: c10VarEx(base), Ret: "l", Var: sv, Body: []*c10Stmt{{Name: fo, T: ot, E: opt}, {Name: fi, T: c10TInt, E: c10CloneEx(el)}}}
+		recs := b.add(&c10Stmt{Tf: mk}, c10TList(recT), true)
+		rv := g.fresh("e")
+		attr := func() *c10Ex {
+			return &c10Ex{Op: "attr", T: ot, A: &c10Ex{Op: "var", T: recT, Name: rv}, Name: fo}
+		}
+		test := func(x *c10Ex) *c10Ex {
+			sym := []string{"==", "==", "!="}[g.intn(3, "toptcmp")]
+			if g.intn(4, "toptleft") == 0 {
+				return &c10Ex{Op: "bin", T: c10TBool, Sym: sym, A: null(), B: x}
+			}
+			return &c10Ex{Op: "bin", T: c10TBool, Sym: sym, A: x, B: null()}
+		}
+		def := g.litInt()
+		if ot.El.K == "s" {
+			def = g.litStr()
+		}
+		fz, fd := g.fresh("f"), g.fresh("f")
+		use := &c10Tform{Arg: c10VarEx(recs), Ret: "l", Var: rv, Body: []*c10Stmt{
+			{Name: fz, T: c10TBool, E: test(attr())},
+			{Name: fd, T: ot.El, E: &c10Ex{Op: "if", T: ot.El, A: &c10Ex{Op: "bin", T: c10TBool, Sym: "==", A: attr(), B: null()}, B: def, C: attr()}},
+		}}
+		b.add(&c10Stmt{Tf: use}, c10TList(&c10Ty{K: "m", F: []c10Field{{fz, c10TBool}, {fd, ot.El}}}), g.coin("tlet"))
+		dotAttr := &c10Ex{Op: "attr", T: ot, A: c10Dot(recT), Name: fo}
+		b.addExpr(&c10Ex{Op: "where", T: recs.T, A: c10VarEx(recs), B: test(dotAttr)}, g.coin("tlet"))
+		b.addExpr(&c10Ex{Op: "count", T: c10TInt, A: c10VarEx(recs)}, false)
 	default:
 		panic("c10: unknown template " + name)
 	}
